@@ -29,6 +29,7 @@ type Cfg struct {
 	NoCaller   bool
 	NoSettings bool // default settings only
 	NoHooks    bool
+	NoDirect   bool // no Logger.Write / Print* entry points
 	Binary     bool // running under binary_log (no effect on generation, recorded only)
 	Tree       bool // derivation trees, interleaved steps/events, several open events
 	NoFocus    bool // never narrow a program's value types to one family (see focusSets)
@@ -578,6 +579,8 @@ func (g *G) Scalar(typ string, depth int, label string) Val {
 		v.S = []byte("ctx-" + rapid.StringMatching(`[a-z]{3}`).Draw(t, label+".cm"))
 		if rapid.IntRange(0, 4).Draw(t, label+".cnil") == 0 {
 			v.S, v.Nil = nil, true
+		} else if rapid.IntRange(0, 2).Draw(t, label+".calt") == 0 {
+			v.EK = "alt" // a context with other keys: what an earlier context carried is not visible through it
 		}
 	case "getctx":
 	case "err", "anerr":
@@ -827,9 +830,9 @@ func (g *G) Settings() Settings {
 func (g *G) Hook(id int, label string) HookSpec {
 	t := g.t
 	h := HookSpec{ID: id}
-	h.Kind = rapid.SampledFrom([]string{"add", "add", "add", "getctx", "noop", "discard"}).Draw(t, label+".hk")
+	h.Kind = rapid.SampledFrom([]string{"add", "add", "add", "getctx", "getctxif", "noop", "discard"}).Draw(t, label+".hk")
 	if g.focus == "goctx" && rapid.Bool().Draw(t, label+".hkctx") {
-		h.Kind = "getctx" // programs about the Go context: hooks that read it
+		h.Kind = rapid.SampledFrom([]string{"getctx", "getctxif"}).Draw(t, label+".hkctxk") // programs about the Go context: hooks that read it
 	}
 	h.Wrap = rapid.SampledFrom([]string{"", "", "func", "level", "levelsome"}).Draw(t, label+".hw")
 	if g.set.GlobalLow > 0 && rapid.Bool().Draw(t, label+".hwlow") {
@@ -855,7 +858,7 @@ func (g *G) Hook(id int, label string) HookSpec {
 		g.cfg.MaxOps = 2
 		h.Ops = g.Ops("event", 1, label+".hops")
 		g.cfg.MaxOps = save
-	case "getctx":
+	case "getctx", "getctxif":
 		h.K = g.Key(label + ".hkey")
 	}
 	return h
@@ -1143,6 +1146,22 @@ func (g *G) Event(label string) EventSpec {
 		ev.Method, ev.ErrV = "withlevel", nil
 		ev.Level = rapid.SampledFrom([]int{-2, -2, -3, -5, -8, -128}).Draw(t, label+".lowlvl")
 	}
+	dp := 9
+	if g.focus == "goctx" {
+		dp = 2 // programs about the Go context: does it reach hooks from every entry point
+	}
+	if !g.cfg.NoDirect && rapid.IntRange(0, dp).Draw(t, label+".direct") == 0 {
+		// the entry points that take the whole event in one call: Logger.Write (the io.Writer a standard
+		// log.Logger, io.Copy or fmt.Fprint writes to) and Print/Printf/Println
+		ev = EventSpec{Method: rapid.SampledFrom([]string{"write", "stdlog", "print", "printf", "println"}).Draw(t, label+".dm"), Fin: "msg"}
+		if rapid.IntRange(0, 5).Draw(t, label+".dhasmsg") != 0 {
+			ev.Msg = g.Bytes(label + ".dmsg")
+			if rapid.IntRange(0, 3).Draw(t, label+".dnl") == 0 {
+				ev.Msg = append(ev.Msg, rapid.SampledFrom([]string{"\n", "\n\n", "\r\n", " %d", "\nsecond line"}).Draw(t, label+".dnlv")...)
+			}
+		}
+		return ev
+	}
 	ev.Ops = g.Ops("event", g.cfg.MaxDepth, label+".ops")
 	ev.Fin = rapid.SampledFrom([]string{"msg", "msg", "msgf", "msgf2", "msgf0", "msgfunc", "send"}).Draw(t, label+".fin")
 	if ev.Fin != "send" && rapid.IntRange(0, 4).Draw(t, label+".hasmsg") != 0 {
@@ -1281,7 +1300,7 @@ func (g *G) Program(maxSteps, maxEvents int) *Program {
 			nd := -1
 			p.Events[j].Node = &nd
 		}
-		if rapid.IntRange(0, 2).Draw(t, "ev.open") == 0 {
+		if !Direct(p.Events[j].Method) && rapid.IntRange(0, 2).Draw(t, "ev.open") == 0 {
 			order = append(order, Act{"open", j})
 			openEv = append(openEv, j)
 		} else {
